@@ -10,11 +10,14 @@ EXTENDS AccessHist, Json, TLC
 \*   shift1 = opsa:dmin42   shift2 = o:psadmin42   emptyuser = "":opsadmin42   emptypw = opsadmin42:""
 \*   other = bob:another    crossed = ops:another   none = no header   malformed = unusable header
 MCCredsFull  == {"good", "newpw", "bad", "shift1", "shift2", "emptyuser", "emptypw", "other", "crossed", "none", "malformed"}
+MCCredsTiny  == {"good", "newpw", "other", "bad"}
 MCCredsSmall == {"good", "newpw", "shift1", "emptypw", "bad", "other"}
 MCVersions == {"v1", "v2", "v3"}
-MCValid == [v \in MCVersions |-> CASE v = "v1" -> {"good", "other"}
+MCGone == "gone"
+MCValid == [v \in MCVersions \cup {MCGone} |-> CASE v = "v1" -> {"good", "other"}
                                    [] v = "v2" -> {"newpw", "other"}
-                                   [] v = "v3" -> {"other"}]
+                                   [] v = "v3" -> {"other"}
+                                   [] v = "gone" -> {}]
 MCMTimesNewer == {"newer"}
 MCMTimesAll   == {"newer", "older", "equal"}
 MCSameConcat == {"good", "shift1", "shift2", "emptyuser", "emptypw"}
@@ -23,6 +26,6 @@ GenAttempt(c) == /\ Attempt(c)
                  /\ PrintT(ToJson([events |-> hist',
                                    \* per attempt: the verdicts the contents that may be in force prescribe
                                    allowed |-> [k \in DOMAIN verdicts' |-> AllowedFor(hist', k)]]))
-GenNext == (\E c \in Creds : GenAttempt(c)) \/ (\E v \in Versions, mt \in MTimes : Reload(v, mt))
+GenNext == (\E c \in Creds : GenAttempt(c)) \/ (\E v \in Versions, mt \in MTimes : Reload(v, mt)) \/ Remove
 GenSpec == Init /\ [][GenNext]_vars
 =============================================================================
